@@ -317,7 +317,7 @@ fn main() {
             }
         }
     }
-    let nr = ctx.budget(5000, 100000);
+    let nr = ctx.cbudget(5000, 100000);
     for _ in 0..nr {
         if let Some(mut rng) = ctx.random_case() {
             let len = rng.range_usize(0, 200);
